@@ -2708,3 +2708,58 @@ func collectorLeavesOnlyWhenNothingIsOwed(c *Ctx, rule string) {
 	c.Check(good && nonVacuous(pendingEmpty), rule, "collectBatches:leaves-only-with-empty-pending", p.Pos(fn.Pos()), "the collector returns only after Abort or when the pending batch is empty",
 		"the batch collector can leave its loop while deferred objects are still pending ("+where+"): a retry scheduled for later is never handed to an adapter, its wait-group slot is never released, and Wait() does not return")
 }
+
+// decodeOnlyThroughDecodeFrom (C07): the canonical flag is computed in one place, DecodeFrom, by comparing the
+// input with the decoded pointer's encoding. Every decoding entry point has to go through it: lfs.decodeKV — which
+// leaves the flag at its default `true` — is called by nobody else.
+func decodeOnlyThroughDecodeFrom(c *Ctx, rule string) {
+	p := c.P
+	n := 0
+	for _, fn := range p.RepoFuncs(productPkg) {
+		for _, ci := range CallsIn(fn, "lfs.decodeKV") {
+			n++
+			root := fn
+			for root.Parent() != nil {
+				root = root.Parent()
+			}
+			c.Check(FnName(root) == "lfs.DecodeFrom", rule, "decodeKV-caller:"+FnName(root), p.InstrPos(ci), "decodeKV is called from DecodeFrom only",
+				FnName(root)+" decodes pointer text without going through DecodeFrom: the canonical flag keeps its default, so any input that parses is reported as canonical")
+		}
+	}
+	c.AtLeast(rule, "callers of lfs.decodeKV", n, 1)
+}
+
+// smudgeDecidesFirst (C08): what smudge does with its input is decided by decoding it; nothing that can fail
+// (progress log, configuration, transfer set-up) may return before that, or bytes that are not a pointer are
+// dropped instead of passed through.
+func smudgeDecidesFirst(c *Ctx, rule string) {
+	p := c.P
+	for _, name := range []string{"smudge", "delayedSmudge"} {
+		fn := p.Fn("commands", name)
+		if fn == nil {
+			c.Missing(rule, "commands."+name, "not found")
+			continue
+		}
+		var dec ssa.Instruction
+		for _, ci := range CallsIn(fn, "lfs.DecodeFrom") {
+			dec = ci
+		}
+		if dec == nil {
+			c.Missing(rule, "DecodeFrom call in commands."+name, "not found")
+			continue
+		}
+		good, where := true, ""
+		for _, ex := range RunCount(CountQuery{Fn: fn, NoRet: noReturnCommands, Event: func(in ssa.Instruction) CSet {
+			if in == dec {
+				return C1
+			}
+			return 0
+		}}) {
+			if ex.Kind == "return" && ex.Set&C0 != 0 {
+				good, where = false, ex.Desc(p)
+			}
+		}
+		c.Check(good, rule, name+":no-return-before-decode", p.InstrPos(dec), "every return comes after the input was decoded",
+			name+" can return before looking at its input ("+where+"): input that is not a pointer is not passed through when that early step fails")
+	}
+}
